@@ -24,6 +24,16 @@ fn check_min<L: Language, N: Analysis<L, Data = u64>>(
     prev: &mut BTreeMap<Id, u64>,
 ) -> Result<u64, String> {
     let mut cmp = 0;
+    // data read through old (possibly dead, possibly repeatedly merged) handles first, before any other query
+    // canonicalises them: they must be the data of the classes the handles now denote
+    let through_handles: Vec<u64> = handles.iter().map(|h| *eg.analysis_data(h.id)).collect();
+    for (h, d) in handles.iter().zip(through_handles.iter()) {
+        let leader = eg.find_applied_id(h).id;
+        cmp += 1;
+        if eg.analysis_data(leader) != d {
+            return Err(format!("[{what}] analysis_data({:?}) = {} read through an old handle, but the class it was merged into ({:?}) carries {}", h.id, d, leader, eg.analysis_data(leader)));
+        }
+    }
     for c in eg.ids() {
         let d = *eg.analysis_data(c);
         // fixpoint equation: datum = min over e-nodes of make(node)
@@ -141,8 +151,8 @@ impl Analysis<Fp> for ConstFold {
             Fp::Add(a, b) => Some((d(eg, a)? + d(eg, b)?) % P),
             Fp::Mul(a, b) => Some((d(eg, a)? * d(eg, b)?) % P),
             Fp::Neg(a) => Some((P - d(eg, a)?) % P),
-            // sum over all of F_p of a constant c is p*c = 0
-            Fp::Sum(Bind { elem, .. }) => d(eg, elem).map(|_| 0),
+            // sum over the index set {0,1} of a constant c is 2c
+            Fp::Sum(Bind { elem, .. }) => d(eg, elem).map(|c| (SUM_RANGE * c) % P),
             // let x = e in b, with b constant
             Fp::Let(Bind { elem, .. }, _) => d(eg, elem),
         }
@@ -194,7 +204,7 @@ fn variant(t: &Tm, src: &mut Src) -> Tm {
             }
         }
         4 => Tm::node("let", vec![Arg::K(vec![90], t.clone()), k(num(src.pick(5) as u32))]),
-        5 => Tm::node("add", vec![k(t.clone()), k(Tm::node("sum", vec![Arg::K(vec![91], num(src.pick(5) as u32))]))]),
+        5 => Tm::node("add", vec![k(t.clone()), k(Tm::node("sum", vec![Arg::K(vec![91], num(0))]))]),
         6 => {
             if t.op == "add" || t.op == "mul" {
                 let ks = t.kids();
@@ -241,7 +251,7 @@ fn decode_const(chunks: &[Vec<u16>]) -> ConstCase {
             }
             _ => {
                 let n = 1 + src.pick(3);
-                let rs = (0..n).map(|_| src.pick(29)).collect();
+                let rs = (0..n).map(|_| src.pick(32)).collect();
                 ops.push(COp::Rewrite(rs));
             }
         }
@@ -296,7 +306,7 @@ fn run_const(c: &ConstCase, obs: &mut Obs) -> Result<(), String> {
                         Fp::Add(a, b) => g(a).and_then(|x| g(b).map(|y| (x + y) % P)),
                         Fp::Mul(a, b) => g(a).and_then(|x| g(b).map(|y| (x * y) % P)),
                         Fp::Neg(a) => g(a).map(|x| (P - x) % P),
-                        Fp::Sum(Bind { elem, .. }) => g(elem).map(|_| 0),
+                        Fp::Sum(Bind { elem, .. }) => g(elem).map(|c| (SUM_RANGE * c) % P),
                         Fp::Let(Bind { elem, .. }, _) => g(elem),
                     };
                     if v.is_some() {
